@@ -128,6 +128,12 @@ VARIANTS = [
     V("c07_seq_infos_wrong_key", "M", Q, "KernelSequence.transition",
       *replace_stmt("infos[kernel.identifier] = result.info", "infos[str(i)] = result.info"),
       note="infos keyed by position instead of identifier", expect_rule="C07.R8"),
+    V("c07_kernel_overrides_transition", "M", "liesel/goose/rw.py", "RWKernel",
+      lambda nd: isinstance(nd, ast.FunctionDef) and nd.name == "_standard_transition",
+      lambda nd: [ast.parse("def transition(self, prng_key, kernel_state, model_state, epoch):\n"
+                            "    return self._adaptive_transition(prng_key, kernel_state, model_state, epoch)"
+                            ).body[0], nd],
+      note="a kernel bypasses the dispatcher: always adaptive", expect_rule="C07.R6"),
     # ---- twins
     V("c07_t_seq_tune_comp", "T", Q, "KernelSequence.start_epoch",
       lambda nd: isinstance(nd, ast.Assign) and ast.unparse(nd.targets[0]) == "states",
